@@ -36,7 +36,7 @@ TStep ==
                IF nx.cmd = "end"
                  THEN \/ nx.how = "tree" /\ Ok(1, 0, 1) /\ pc' = "done"
                       \/ nx.how = "syntaxerror" /\ Fail /\ pc' = "done"
-                 ELSE /\ \/ \E k \in {"wrap", "delete", "gogreedy"}, el \in {nx.eline, 1} \cap Nat, ec \in Cands(nx) : Continue(k, el, ec, nx.nlines, nx.ecol)
+                 ELSE /\ \/ \E k \in {"wrap", "delete", "gogreedy"}, el \in {nx.eline, 1} \cap Nat, ec \in Cands(nx) : Continue(k, el, ec, nx.nlines, nx.ecol, nx.greedy)
                          \/ \E el \in 1..(Top.n + 1), ec \in {0, 2, 4} : Recurse(el, ec, nx.nlines)
                          \/ Ok(nx.eline, nx.ecol, nx.nlines)
                          \/ Fail
